@@ -9,6 +9,15 @@ NOTE = ("Trusted: go/ssa lowering, engine instruction semantics + listed stubs (
 CLAIMS = {
  "C01": ("§5 C01", "All protowire primitives encoded whole from go/ssa; every uint64/int64/uint32, every valid field number and 3-bit type, payloads<=4 bytes, prefix<=2 bytes: round trip, exact consumption, Size agreement, shortest varint, ZigZag/tag/bool bijection, group body recovery. Bounded model checking at full machine width, not a proof about arbitrary payload lengths."),
  "C02": ("§5 C02", "ConsumeField/ConsumeTag/ConsumeFieldValue/ConsumeGroup/consumeFieldValueD compared with a reference recursive-descent scanner written from the wire grammar (error classes included) on every byte string up to 5 bytes (7 thorough), plus structured long inputs (8..11-byte varints, 5..10-byte tags, 12-byte fields per wire type, group with a >=9-byte varint) that reach the 10th-varint-byte arms; small symbolic recursion limits; ParseError mapping for every int."),
+ "C21": ("§5 C21", "internal/encoding/json token level: parseNumber vs the RFC 8259 number grammar on every byte string <=6 (8 thorough) in both directions (accepted => grammatical and delimiter-terminated; grammatical+delimiter => accepted whole), parseString vs an RFC 8259 string reference incl. decoded value on quote+<=5 (7) bytes and on \\uXXXX escapes / surrogate pairs with symbolic hex digits, null/true/false matching, and Decoder.Read to EOF on every document <=4 (5) bytes: accepted => the reference JSON grammar accepts. Message-level protojson output is outside."),
+ "C23": ("§5 C23", "protojson.parseDuration vs a three-valued reference recogniser of the documented Duration grammar with exact (seconds,nanos) incl. sign rule on every string <=6 (8 thorough) bytes, plus structured long literals (sign, <=13 integer digits, <=10 fractional digits, all digits symbolic; cvc5 integer back end). FieldMask JSON reversibility kernel (JSONCamelCase/JSONSnakeCase) via C42's harness. Timestamp text (time.Parse), Struct/Value/Any and the range check in unmarshalDuration are outside."),
+ "C25": ("§5 C25", "text.appendString -> UnmarshalString round trip for every byte string <=3 (4 thorough) bytes in both outputASCII modes (byte-exact, ASCII mode emits only 0x20..0x7e), and parseString totality on quote+<=4 (5) arbitrary bytes with either quote. Strings longer than the bound are outside."),
+ "C30": ("§5 C30", "protoreflect.Value.Equal on scalar Values of the 10 scalar kinds with full-width symbolic contents (floats through the SMT FloatingPoint theory, strings/bytes <=2 bytes): reflexive incl. NaN, symmetric, transitive, different kinds unequal, nil bytes == empty bytes; list equality element-wise on lists <=2. Message/map equality, equalUnknown (reflect.DeepEqual) and protocmp are outside."),
+ "C35": ("§5 C35", "filedesc.FieldRanges/EnumRanges.CheckValid vs a reference (valid bounds, non-empty, pairwise disjoint, order independent) on <=3 (4) ranges with all-int32 bounds, CheckOverlap on two valid lists, Names.CheckValid vs duplicate detection, protoreflect.Name/FullName.IsValid vs the identifier grammar on all strings <=5 (6). NewFile as a whole and the other validators are outside."),
+ "C36": ("§5 C36", "FieldRanges/EnumRanges.Has == membership in the listed ranges for every int32 probe on every valid list of <=3 (4) ranges (binary search on every shape), Get(i), Names.Has, FieldNumbers.Has, FullName Append/Parent/Name inverse laws on valid names. Descriptors built by the real builders are outside."),
+ "C42": ("§5 C42", "strs.GoCamelCase maps every valid proto (full) identifier <=5 (6) bytes to an exported ASCII Go identifier; JSONSnakeCase(JSONCamelCase(s))==s exactly on the lowerCamel-convertible domain (the FieldMask reversibility test); TrimEnumPrefix never empty and returns a suffix; MapEntryName. GoSanitized (unicode tables) and name uniqueness inside protogen are outside."),
+ "C44": ("§5 C44", "fieldmaskpb: lessPath is a strict total order equal to the documented one, hasPathPrefix equals its definition, rangeFields splits exactly at dots, Normalize output is sorted/prefix-free/selects the same path set/idempotent (<=3 paths of <=2 (3) bytes, symbolic probe path), Union/Intersect select a probe iff some/all operands do (2x<=2 paths). numValidPaths against real descriptors is outside."),
+ "C47": ("§5 C47", "internal/encoding/messageset item format: items with every type id 1..MaxInt32, bodies <=3 bytes, both field orders, optional interleaved unknown field and split message fields are read by ConsumeFieldValue as (id, body, exact length) in both wantLen modes; SizeField; Unmarshal total and scan-consistent on every byte string <=5 (6); AppendUnknown/SizeUnknown agree and re-read. Resolved extensions and the impl fast path under -tags protolegacy are outside."),
  "C43": ("§5 C43", "durationpb.AsDuration vs an exact 128-bit multiply-add-clamp specification for every (int64,int32) (cvc5 --solve-bv-as-int=sum); New(d).AsDuration()==d and validity for every int64 duration; both check() functions vs the documented ranges for every (int64,int32); timestamppb.New(t).AsTime() for every time.Time bit pattern with nsec<1e9 in both the wall-only and the monotonic encoding (real time.Unix/UTC/Equal SSA executed). One known finding (mixed-sign seconds/nanos with seconds*1e9 overflowing) is listed in known_findings.json."),
 }
 
